@@ -329,7 +329,7 @@ def run(ctx):
                        "step propagated to another trait, raised, removed a link or collected an object; distinct = "
                        "distinct (initial values, operation list)")
     rnd = random.Random(ctx.seed)
-    n, maxlen = (1000, 12) if ctx.tier == "quick" else (12000, 24)
+    n, maxlen = (800, 12) if ctx.tier == "quick" else (12000, 24)
     if ctx.replay:
         cases = [json.load(open(ctx.replay))["replay"]["case"]]
     else:
